@@ -210,6 +210,8 @@ class Runner:
         self.witness_every = witness_every
         self.solver_name = solver_name or 'z3-%s' % z3.get_version_string()
         self.sample_budget = 2
+        self.prime_body = None          # another harness body run first in every path (its clauses muted): call-history clause, see prime()
+        self.prime_inputs = None
         self.witness_prelude = ''       # python source run before every witness expression (helpers of the harness)
         self.witness_setup = None       # template that defines the names the witness expressions use from the concrete inputs
 
@@ -228,7 +230,13 @@ class Runner:
             state['out'] = None
             state['fails'] = []
             self.cur_fails = state['fails']
+            self.prime_inputs = None
+            if self.prime_body is not None:
+                self._run_prime()
             out = body(self)
+            if self.prime_body is not None and out:
+                # the witness of a primed path is only meaningful after the priming call: not compared in the long-lived process
+                out = dict(out, observe=[], witness_script=None)
             state['out'] = out
             return out
 
@@ -263,6 +271,7 @@ class Runner:
                 res.inconclusive.append('%s: solver unknown on path condition' % job_label)
                 return
             res.reach_sat += 1
+            self._cur_history = self._prime_history(m) if self.prime_body is not None else None
             inputs = {k: conc(m, v) for k, v in (out or {}).get('inputs', {}).items()}
             # witness validation: symbolic result under the model == plain library on the concrete input
             if out and not fails and m is not None and (p.pid % self.witness_every == 0):
@@ -297,6 +306,8 @@ class Runner:
                     blocks = []
                     for attempt in range(800):
                         ins = {k: conc(model, v) for k, v in sym_inputs.items()}
+                        if self.prime_body is not None:
+                            self._cur_history = self._prime_history(model)
                         verdict = self._counterexample(job_label, ob.label, ins, '' if isinstance(ob.info, dict) else str(ob.info or ''),
                                                        quiet=(eng.float_mode == 'R' or getattr(eng, 'overapprox_used', False) or getattr(eng, 'exact_floats', False)))
                         if verdict in ('violation', 'inconclusive'):
@@ -366,6 +377,8 @@ class Runner:
                             res.inconclusive.append('%s: %s: solver %s while looking for a reproducing witness' % (job_label, label, r))
                             break
                         ins2 = {k: conc(mdl, v) for k, v in sym_inputs.items()}
+                        if self.prime_body is not None:
+                            self._cur_history = self._prime_history(mdl)
                         v2 = self._counterexample(job_label, label, ins2, detail, quiet=True)
                         if v2 != 'spurious':
                             break
@@ -388,6 +401,37 @@ class Runner:
         if eng.n_fallback_calls:
             res.add_query('cvc5-binary(fallback after z3 unknown)', eng.n_fallback_calls, 0.0)
         return eng
+
+    def _run_prime(self):
+        """history clause: run the priming body with fresh symbolic inputs of its own, keep only the library state it leaves
+        (module state is restored before every path, so the main body then runs in exactly 'fresh import + one earlier call')"""
+        eng = self.eng
+        eng.mute = True
+        keep_fails = list(self.cur_fails)
+        try:
+            try:
+                out = self.prime_body(self)
+            except PathFail as e:
+                out = getattr(e, 'out', None) or self.partial
+            except Exception:
+                out = self.partial
+        finally:
+            eng.mute = False
+        self.cur_fails[:] = keep_fails
+        self.prime_inputs = (out or {}).get('inputs', {})
+        self.partial = None
+
+    def _prime_history(self, model):
+        """the priming call of this path as a replayable history entry (a clause script instantiated with the priming inputs)"""
+        if not self.prime_inputs:
+            return None
+        ins = {k: repr(conc(model, v)) for k, v in self.prime_inputs.items()}
+        for label, tmpl in self.scripts.items():
+            try:
+                return [('script', tmpl.format(**ins), None)]
+            except (KeyError, IndexError):
+                continue
+        return None
 
     def _discharge_deferred(self, ob):
         """bit-precise obligations: PC & not(prop) as SMT-LIB text to cvc5 (QF_BVFP / UF), z3 as second try"""
@@ -506,14 +550,25 @@ class Runner:
             job_label, expr, show(g0), hist_text[:200], show(got)))
         return True
 
-    def _counterexample(self, job_label, label, inputs, detail, quiet=False):
+    def _counterexample(self, job_label, label, inputs, detail, quiet=False, history=None):
         tmpl = self.scripts.get(label) or self.scripts.get(label.split(':')[0])
         args_text = ', '.join('%s=%r' % (k, v) for k, v in sorted(inputs.items()))
         if tmpl is None:
             self.res.inconclusive.append('%s: no replay script for %s (%s)' % (job_label, label, args_text))
             return
         script = tmpl.format(**{k: repr(v) for k, v in inputs.items()})
-        code, out = self.plain.run_script(script)
+        if history is None and self.prime_body is not None:
+            history = self._cur_history
+        if history:
+            # a violation that needs an earlier call: replayed in a fresh process, history first; it only counts if the same clause
+            # script passes without the history (otherwise it is an ordinary violation and the ordinary jobs report it)
+            code, out = core.fresh_script(script, history)
+            if code == 1 and core.fresh_script(script)[0] == 1:
+                code, out = 0, out
+            script = core.history_prelude(history) + script
+            args_text += ' after an earlier call (see the replay script)'
+        else:
+            code, out = self.plain.run_script(script)
         if code == 1:
             rec = {'label': label, 'func': self.func, 'kind': label.split(':')[0], 'args_text': args_text,
                    'expected': detail or 'property clause %s' % label, 'observed': out.strip()[-300:],
